@@ -12,7 +12,10 @@ import os
 from .. import cf, guards
 
 BASELINE = os.path.join(os.path.dirname(os.path.dirname(os.path.abspath(__file__))), 'data', 'callctx_baseline.json')
-SKIP = {'imb_set_errno', 'memcpy', 'memset', 'memmove', 'IMB_ASSERT', '__assert_fail'}
+SKIP = {'imb_set_errno', 'memcpy', 'memset', 'memmove', 'IMB_ASSERT', '__assert_fail',
+        # scrubbing is C13's subject (where and how often a function scrubs is free as long as every path does)
+        'clear_mem', 'imb_clear_mem', 'force_memset_zero', 'force_memset_zero_vol', 'clear_var', 'clear_scratch_gps', 'clear_scratch_xmms_sse',
+        'clear_scratch_xmms_avx', 'clear_scratch_ymms', 'clear_scratch_zmms'}
 
 
 def _full_ctx(func, dom, bid):
